@@ -53,7 +53,11 @@ def _worker(prop, job):
                                      include=[os.path.join(os.path.realpath(REPO), "rsome", "*")])
             lcov.start()
         mod = importlib.import_module(f"rverif.props.{prop.lower()}")
-        obs = mod.run_job(job)
+        if job.get("kind") == "lemmas":
+            from .lemmas import run_lemmas
+            obs = run_lemmas(job["lemmas"])
+        else:
+            obs = mod.run_job(job)
         if lcov is not None:
             lcov.stop()
             lcov.save()
@@ -101,6 +105,10 @@ def run_property(prop, tier="quick", seed=0, workers=None, only=None):
     t0 = time.time()
     mod = importlib.import_module(f"rverif.props.{prop.lower()}")
     jobs = mod.jobs(tier)
+    if getattr(mod, "LEMMAS", None):
+        # the mathematical links between the contracts and the property statement, machine-checked by Lean (rverif/lemmas.py)
+        from .lemmas import lemma_job
+        jobs = list(jobs) + [lemma_job(mod.LEMMAS)]
     if only:
         jobs = [j for j in jobs if only in json.dumps(j)]
     workers = workers or min(16, max(1, len(jobs)))
